@@ -292,6 +292,11 @@ func emitTLS(c *runCfg, only map[string]bool, id *int, class string, cfg cfgT, p
 }
 
 func runC11(c *runCfg) error {
+	if c.replay != "" {
+		if b, err := os.ReadFile(c.replay); err == nil && !bytes.Contains(b, []byte("(tlsobs ")) {
+			return replaySessions(c)
+		}
+	}
 	only := tlsOnly(c)
 	g := &gen{rng: c.rng}
 	id := 0
@@ -354,6 +359,25 @@ func runC11(c *runCfg) error {
 		// inside TLS: a second SSLRequest, a CancelRequest
 		emit("tls_ssl_again", tcfg, sslRequest(), nil, append([][]byte{sslRequest()}, msgs...), "")
 		emit("tls_cancel", tcfg, sslRequest(), nil, append([][]byte{cancelRequest()}, msgs...), "")
+		// no certificates: the refusal 'N' restarts nothing. Whatever the client sent behind the SSLRequest, in
+		// whatever segmentation (same segment, split inside the startup packet, byte by byte), is the plaintext
+		// continuation: the transcript behind 'N' equals the transcript of the same stream without the SSLRequest
+		if len(only) == 0 && i%2 == 0 {
+			base := cat(msgs...)
+			gid := 800000 + i
+			ref := flatCase(0, "declined", cfg, base, nil)
+			ref.id = fmt.Sprintf("%d.v0", gid)
+			emitSession(c, ref)
+			raw := cat(sslRequest(), base)
+			for v, ch := range [][]int{nil, {8}, {8 + len(msgs[0])}, {9}, {7, 1, 3}, {8, len(msgs[0]) - 1, 1}, bytewise(len(raw))} {
+				if v == 6 && len(raw) > 600 {
+					continue
+				}
+				vc := flatCase(0, "declined", cfg, raw, ch)
+				vc.id = fmt.Sprintf("%d.v%d", gid, v+1)
+				emitSession(c, vc)
+			}
+		}
 		// no certificates: 'N', plaintext continues on the same connection
 		emit("no_certs", cfg, sslRequest(), nil, msgs, "")
 		emit("no_certs_ssl_again", cfg, sslRequest(), nil, append([][]byte{sslRequest()}, msgs...), "")
